@@ -3,7 +3,7 @@ import common as C
 import gen
 
 
-def run_oracle(res, name, cases, hashseeds=None, chunk=2):
+def run_oracle(res, name, cases, hashseeds=None, chunk=2, finding_key=None):
     chunks = [cases[i:i + chunk] for i in range(0, len(cases), chunk)]
     outs = C.run_impl_parallel('oracles.py', [{'oracle': name, 'cases': ch} for ch in chunks], timeout=2400,
                                hashseeds=hashseeds)
@@ -21,6 +21,7 @@ def run_oracle(res, name, cases, hashseeds=None, chunk=2):
             res.count(key, nontrivial=r['checks'] > 0, n=max(1, r['checks']))
             nchecks += r['checks']
             for f in r['failures'][:3]:
-                res.violation(f['what'], {'case': case, 'details': {k: v for k, v in f.items() if k != 'what'}})
+                res.violation(f['what'], {'case': case, 'details': {k: v for k, v in f.items() if k != 'what'}},
+                              finding_key=(finding_key(case, f) if finding_key else None))
     res.stream(name, cases=len(cases), relations_checked=nchecks)
     return results
